@@ -311,6 +311,7 @@ class Expr(core.Expr):
         return AsType(self, dtypes)
 
     def clip(self, lower=None, upper=None, axis=None):
+        _check_co_aligned("clip", self, lower, upper)
         return Clip(self, lower=lower, upper=upper, axis=axis)
 
     def combine_first(self, other):
@@ -2941,6 +2942,18 @@ def is_broadcastable(dfs, s):
         and any(compare(s, df) for df in dfs if df.ndim == 2)
         or s.ndim == 0
     )
+
+
+def _check_co_aligned(op, frame, *others):
+    # Operations without an alignment step must refuse inputs that are
+    # partitioned differently instead of combining unrelated partitions
+    others = [core._unpack_collections(o) for o in others]
+    others = [o for o in others if isinstance(o, Expr)]
+    if others and not are_co_aligned(frame, *others):
+        raise NotImplementedError(
+            f"`{op}` with a collection that is not aligned with the calling "
+            "collection is not supported. Align the partitions first."
+        )
 
 
 def are_co_aligned(*exprs):
